@@ -94,6 +94,71 @@ def _state_key(st):
     return json.dumps([st["top"], st["kids"], st["dat"], st["did"], st["knd"], st["meta"]])
 
 
+def _build_src(fl, mk, xid, rid):
+    """the foreign source tree is a state of the specification too (built by plain add_child calls): if the library
+    refuses those calls, that is reported as a violation (state_not_constructible), not as a machinery failure"""
+    st = P.src_state(fl, mk, xid)
+    try:
+        return core.build(st, fl, mk, name="src"), None
+    except Exception as e:  # noqa: BLE001
+        return None, {"id": rid, "fl": fl.name, "build_failed": f"source tree: {type(e).__name__}: {e}",
+                      "op": {"name": "build_source"}, "pre": st}
+
+
+REMOVING_OPS = {"remove", "remove_children", "clear", "del", "filter"}
+
+
+def _stale_chunk(args):
+    """(state, removing op) from TLC's enumeration; then every call of core.STALE_WHATS through the handle of every
+    node that op removed: one fresh object per call, the call is a step of the specification ("stale") like any other"""
+    chunk, flname, mk, maxd = args
+    fl = P._fl(flname)
+    out = []
+    for rid, pre, op in chunk:
+        try:
+            b0 = core.build(pre, fl, mk)
+            core.execute(b0, op, None)
+            trace.snapshot(b0)
+            ng = len(b0.grave)
+        except Exception:  # noqa: BLE001   reported by the exhaustive stage
+            continue
+        for g in range(ng):
+            for wi, what in enumerate(core.STALE_WHATS):
+                b = core.build(pre, fl, mk)
+                core.execute(b, op, None)
+                try:
+                    cur = trace.snapshot(b)
+                except Exception:  # noqa: BLE001
+                    break
+                sop = {"name": "stale", "what": what, "g": g, "x": 1 if cur["n"] else 0, "d": 1 + (wi % 2), "after": op["name"]}
+                out.append(trace.run_step(b, sop, rid * 200 + g * 20 + wi, None, maxd, pre_st=cur))
+    return out
+
+
+def stage_stale(rep, props, *, label, pairs, flnames, limit, mk=1, maxd=4):
+    import multiprocessing as mp
+    sel = [(i, pre, op) for i, pre, op in pairs if op["name"] in REMOVING_OPS and not _is_filterx(op)]
+    if limit and len(sel) > limit:
+        step = len(sel) / limit
+        sel = [sel[int(k * step)] for k in range(limit)]
+    for fn in flnames:
+        chunks = [(sel[i:i + 40], fn, mk, maxd) for i in range(0, len(sel), 40)]
+        with mp.get_context("fork").Pool(16, initializer=P._init_worker) as pool:
+            outs = pool.map(_stale_chunk, chunks)
+        recs = [r for o in outs for r in o]
+        mism, checked, wall = P.validate_records(recs, mk=mk)
+        absorb(rep, recs, mism, props)
+        rep.stages.append({"stage": f"{label}:{fn}", "removing_steps": len(sel), "records": len(recs)})
+
+
+def _maybe_stale(b, cur, rng, prob):
+    """with probability prob (and a removed node at hand) the next step is a call through a stale handle"""
+    if b.grave and rng.random() < prob:
+        return {"name": "stale", "what": rng.choice(core.STALE_WHATS), "g": rng.randrange(len(b.grave)),
+                "x": rng.randint(1, cur["n"]) if cur["n"] else 0, "d": rng.randint(1, 2)}
+    return None
+
+
 def _walk(args):
     """spec -> code: one random walk through TLC's (emitted) state graph, replayed on one live object.
     After every step the live object is projected; the walk continues from the spec state it shows."""
@@ -103,7 +168,9 @@ def _walk(args):
     fl = flavours.make(flname.split("+")[0], flname.endswith("+typed"))
     b = core.build({"n": 0, "par": [], "kids": [], "top": [], "dat": [], "did": [], "knd": [], "meta": [],
                     "typed": fl.typed}, fl, mk)
-    src = core.build(P.src_state(fl, mk), fl, mk, name="src")
+    src, failed = _build_src(fl, mk, 0, base_id)
+    if failed:
+        return [failed]
     out = []
     for k in range(steps):
         try:
@@ -113,7 +180,7 @@ def _walk(args):
         ops = graph.get(_state_key(cur))
         if not ops:
             break  # the live object left the specification's state graph (reported by the step before)
-        op = rng.choice(ops)
+        op = _maybe_stale(b, cur, rng, 0.1) or rng.choice(ops)
         if not core.op_applicable(op, fl):
             continue
         rec = trace.run_step(b, op, base_id + k, src, maxd, pre_st=cur, extra={"hist": base_id, "step": k})
@@ -154,7 +221,9 @@ def _random_history(args):
     mk = cfg.get("mk", 1)
     b = core.build(core.norm_state({"n": 0, "par": [], "kids": [], "top": [], "dat": [], "did": [], "knd": [],
                                     "meta": [], "typed": fl.typed}), fl, mk)
-    src = core.build(P.src_state(fl, mk, 11 if 11 in cfg.get("xids", ()) else 0), fl, mk, name="src")
+    src, failed = _build_src(fl, mk, 11 if 11 in cfg.get("xids", ()) else 0, base_id)
+    if failed:
+        return [failed]
     out = []
     for k in range(steps):
         try:
@@ -164,6 +233,7 @@ def _random_history(args):
         op = randops.random_op(cur, rng, D=cfg["D"], typed=fl.typed, kinds=cfg.get("kinds", (0,)),
                                xids=cfg.get("xids", (0,)), mk=mk, meta_vals=cfg.get("meta_vals", 0),
                                max_nodes=cfg.get("max_nodes", 12), families=cfg.get("families"), is_str=fl.is_str)
+        op = _maybe_stale(b, cur, rng, 0.06) or op
         rec = trace.run_step(b, op, base_id + k, src, cfg["D"], pre_st=cur, extra={"hist": base_id, "step": k})
         out.append(rec)
         if "bad" in rec:
@@ -254,7 +324,7 @@ def stage_faults(rep, props, *, label, max_nodes, d, flnames):
 
 
 # ------------------------------------------------------------------------------------------------
-PLAIN_FLAVOURS = ["str", "int", "tuple", "dataclass", "dictwrapper", "keyed", "falsy", "intnid"]
+PLAIN_FLAVOURS = ["str", "int", "tuple", "dataclass", "dictwrapper", "keyed", "falsy", "intnid", "fwd"]
 
 
 def run(prop: str, tier: str) -> int:
@@ -280,14 +350,18 @@ def run(prop: str, tier: str) -> int:
     }[prop]
     K = P.core_constants
     # --- the specification's own properties on a larger bound (no emission)
-    stage_mc_only(rep, label="mc:plain<=4x3", consts=K(max_nodes=4, d=3, ops=ALL_OPS, emit=False))
+    stage_mc_only(rep, label="mc:plain<=4x3", consts=K(max_nodes=4, d=3, ops=ALL_OPS + ["stale"], emit=False))
     if not quick:
         stage_mc_only(rep, label="mc:plain<=5x3", consts=K(max_nodes=5, d=3, ops=["add", "move", "remove", "set_data"],
                                                             emit=False))
     # --- exhaustive transitions, executed
-    fl_q = {"C02": ["str", "keyed", "falsy", "intnid"], "C01": ["str", "keyed"], "C04": ["str", "dataclass"]}.get(prop, ["str"])
+    fl_q = {"C02": ["str", "keyed", "falsy", "intnid"], "C01": ["str", "keyed"], "C04": ["str", "dataclass"],
+            "C07": ["str", "fwd"]}.get(prop, ["str"])
     pairs = stage_exhaustive(rep, props, label="ex:plain<=3x2", consts=K(max_nodes=3, d=2, ops=focus, emit=True),
                              flnames=fl_q if quick else PLAIN_FLAVOURS, light=(fl_q if quick else PLAIN_FLAVOURS)[1:])
+    # --- calls through handles of removed nodes after every removing step of that enumeration
+    stage_stale(rep, props, label="stale:plain<=3x2", pairs=pairs, flnames=["str"] if quick else ["str", "keyed", "falsy"],
+                limit=400 if quick else 0)
     typed_ops = focus if not quick else [o for o in focus if o in ("add", "badpos", "add_node", "add_tree", "remove", "move")]
     stage_exhaustive(rep, props, label="ex:typed<=3x2",
                      consts=K(max_nodes=3, d=2, typed=True, kinds=(0, 2), ops=typed_ops, emit=True),
